@@ -1198,11 +1198,12 @@ def m_ord(it, name, a):
             return x if lt else y
         return y if lt else x
     x, y = it.deref(a[0]), it.deref(a[1])
-    if isinstance(x, Adt) and x.ty == 'Instant':
+    if isinstance(x, Adt) and x.ty in ('Instant', 'Duration'):
         x, y = x.f[0], y.f[0]
-        ty = 'u64'
-    else:
-        ty = 'i64'
+        if op in ('lt', 'le', 'gt', 'ge'):
+            return {'lt': lambda: x < y, 'le': lambda: x <= y, 'gt': lambda: x > y, 'ge': lambda: x >= y}[op]()
+        raise Unsupported('cmp of time values')
+    ty = 'i64'
     if isinstance(x, EnumC):
         x, y = x.d, y.d
         ty = 'i32'
